@@ -80,6 +80,44 @@ pub fn faults(r: &mut Rng, b: &[u8], n: usize) -> Vec<Vec<u8>> {
     out
 }
 
+/// a key path drawn from the document: follows existing members / indices (negative ones too),
+/// sometimes steps past the end, into scalars, or uses the wrong kind of step
+pub fn gen_keypath(r: &mut Rng, v: &Value) -> Vec<jsonb::keypath::KeyPath<'static>> {
+    use jsonb::keypath::KeyPath;
+    use std::borrow::Cow;
+    let mut out = vec![];
+    let mut cur = v;
+    for _ in 0..8 {
+        if r.chance(1, 6) { break; }
+        match cur {
+            Value::Array(vs) => {
+                let n = vs.len() as i64;
+                if r.chance(1, 8) { out.push(KeyPath::Name(Cow::Owned(gen_key(r)))); break; }
+                let i = match r.below(10) {
+                    0 => n, 1 => n + 1, 2 => -n - 1, 3 => -n, 4 => -1,
+                    5 => *r.pick(&[i32::MIN as i64, i32::MAX as i64, -2147483647]),
+                    _ => if n > 0 { r.range(-n, n - 1) } else { 0 },
+                };
+                out.push(KeyPath::Index(i as i32));
+                let idx = if i < 0 { n + i } else { i };
+                if idx >= 0 && idx < n { cur = &vs[idx as usize]; } else { break; }
+            }
+            Value::Object(ob) => {
+                if r.chance(1, 8) { out.push(KeyPath::Index(r.range(-2, 2) as i32)); break; }
+                let k = if !ob.is_empty() && r.chance(5, 6) { ob.keys().nth(r.below(ob.len() as u64) as usize).unwrap().clone() } else { gen_key(r) };
+                if r.chance(1, 2) { out.push(KeyPath::Name(Cow::Owned(k.clone()))); } else { out.push(KeyPath::QuotedName(Cow::Owned(k.clone()))); }
+                match ob.get(&k) { Some(x) => cur = x, None => break }
+            }
+            _ => {
+                // step past a scalar
+                if r.chance(1, 2) { out.push(KeyPath::Index(0)); } else { out.push(KeyPath::Name(Cow::Owned("a".into()))); }
+                break;
+            }
+        }
+    }
+    out
+}
+
 pub fn gen(prop: &str, tier: &str, seed: u64) -> Out {
     let mut o = Out::new();
     let mut r = Rng::new(seed ^ prop.bytes().fold(0u64, |a, b| a.wrapping_mul(131).wrapping_add(b as u64)));
@@ -166,6 +204,66 @@ pub fn gen(prop: &str, tier: &str, seed: u64) -> Out {
                 }
                 o.push(format!("dec {}", hex(&x)));
                 o.stat("fault:random-bytes");
+            }
+        }
+        "C05" => {
+            for _ in 0..scale(tier, 500, 15000) {
+                let v = gen_value(&mut r, &c, 0);
+                o.doc_stats(&v);
+                let d = hex(&v.to_vec());
+                let mut both = |o: &mut Out, l: String| { o.push(format!("spec:{}", l)); o.push(l); };
+                for op in ["arrlen", "keys", "each", "vals", "typeof", "asnull", "asbool", "asnum", "asstr", "asi64", "asu64", "isarr", "isobj"] {
+                    both(&mut o, format!("{} {}", op, d));
+                }
+                for op in ["tobool", "toi64", "tou64"] { o.push(format!("{} {}", op, d)); }
+                match &v {
+                    Value::Array(vs) => {
+                        for i in 0..vs.len() + 2 { both(&mut o, format!("getidx {} {}", d, i)); }
+                        both(&mut o, format!("getidx {} {}", d, r.next() >> r.below(64)));
+                    }
+                    _ => { both(&mut o, format!("getidx {} {}", d, r.below(3))); }
+                }
+                // names: every key, case variants, prefixes, pool keys
+                let mut names: Vec<String> = vec![];
+                if let Value::Object(ob) = &v {
+                    for k in ob.keys() {
+                        names.push(k.clone());
+                        names.push(k.to_uppercase());
+                        names.push(k.to_lowercase());
+                        if !k.is_empty() { let mut e = k.len() - 1; while !k.is_char_boundary(e) { e -= 1; } names.push(k[..e].to_string()); }
+                        names.push(format!("{}a", k));
+                    }
+                }
+                for _ in 0..3 { names.push(gen_key(&mut r)); }
+                for n in &names {
+                    both(&mut o, format!("getname {} {} 0", d, hex(n.as_bytes())));
+                    both(&mut o, format!("getname {} {} 1", d, hex(n.as_bytes())));
+                }
+                // key paths drawn from the document: depth up to document depth + 1
+                for _ in 0..6 {
+                    let kp = gen_keypath(&mut r, &v);
+                    both(&mut o, format!("getkp {} {}", d, crate::ops_access::show_keypath(&kp)));
+                }
+                // key existence
+                let mut ks: Vec<Vec<u8>> = names.iter().take(4).map(|s| s.as_bytes().to_vec()).collect();
+                if let Value::Array(vs) = &v { for x in vs.iter().take(3) { if let Value::String(s) = x { ks.push(s.as_bytes().to_vec()); } } }
+                if r.chance(1, 8) { ks.push(vec![0xff]); }
+                for n in 0..=ks.len().min(3) {
+                    let sel: Vec<String> = (0..n).map(|_| { let k: &Vec<u8> = r.pick(ks.as_slice()); hex(k) }).collect();
+                    let arg = if sel.is_empty() { "[]".to_string() } else { sel.join(";") };
+                    both(&mut o, format!("existsall {} {}", d, arg));
+                    both(&mut o, format!("existsany {} {}", d, arg));
+                }
+                // string traversal
+                let probe = gen_string(&mut r, false);
+                both(&mut o, format!("travstr {} eq:{}", d, hex(probe.as_bytes())));
+                both(&mut o, format!("travstr {} has:{:02x}", d, *r.pick(&[0x61u8, 0x41, 0x00, 0x22, 0xc3, 0x6b, 0x7a])));
+                both(&mut o, format!("travstr {} len:{}", d, r.below(6)));
+            }
+            for s in STRINGS.iter().chain(["1e5", ".5", "5.", "-.5e-3", "e5", ".", "+inf", "-Infinity", "nAn", "1e", "1e+", "0x10", "1_000", "١٢", " 1", "1 ", "+0", "-0", "00012", "9223372036854775807", "9223372036854775808", "-9223372036854775809", "18446744073709551616", "1e400", "-1e400", "4.9e-324", "2.4e-324", "2.5e-324"].iter()) {
+                o.push(format!("strf64 {}", hex(s.as_bytes())));
+                let dv = Value::String(std::borrow::Cow::Owned(s.to_string())).to_vec();
+                for op in ["tobool", "toi64", "tou64"] { o.push(format!("{} {}", op, hex(&dv))); }
             }
         }
         "C17" => {
